@@ -1,4 +1,4 @@
-import SoxrModel.Lsr.Lemmas
+import SoxrModel.Lsr.NoCrash
 import SoxrModel.Conv.LemmasProps
 import SoxrModel.Conv.LemmasLsr
 
@@ -33,8 +33,9 @@ Clauses and theorems
 * constants read from /repo               `generated_constants`
 * outside the contract (why the assumptions are needed)  `invalid_ratio_crashes`, `failed_create_then_reset_crashes`
 
-Not proved here: `Goal_no_crash_in_contract` (stated below) — that no crash outcome is reachable with in-contract
-arguments from `src_new` while no `resampler_create` fails; the correspondence compares crash / no crash op by op.
+* no crash with a valid ratio              `no_crash_in_contract` (single call, any engine / callback behaviour)
+Not proved here: `Goal_channels_invariant` (stated below) — that the hypothesis of `no_crash_in_contract` is kept by
+`src_process`; the correspondence compares crash / no crash op by op.
 -/
 
 set_option exponentiation.threshold 4096
@@ -116,26 +117,16 @@ theorem totals_owed_then_zero (owed tout : Nat) (pre post : List Drain) (d : Dra
 example : Lawful 200 0 ([⟨150, 150⟩, ⟨0, 0⟩, ⟨150, 50⟩] ++ ⟨100, 0⟩ :: [⟨7, 0⟩]) := by
   simp [Lawful]
 
-/-- what `src_process` reports in such a call is the engine's answer: a running one-channel converter that is
-    flushing, no new input, room for `out` frames, engine answer `g`: `output_frames_gen = min g out`, return code 0. -/
-theorem drain_call_reports_engine_answer (o : Obj) (r : D) (out : BitVec 64) (g : Nat) (evs : List Ev) (rest : List Tok)
-    (he : o.error = none) (hch : o.chans = 1) (hi : o.inited = true) (hv : o.cfg.vr = false) (hfl : o.flushing = true)
-    (hr : dpos (recip r) = true) (hd : closeTo o.ioRatio (recip r) = true) :
-    srcProcess 1 (some o) (some ⟨r, 0#64, out, true, false, false⟩) ⟨evs, .g g :: rest⟩ =
-      .ok (some o, ⟨0, some 0, some (min g out.toNat)⟩)
-        ⟨.output (min g out.toNat) :: .process out.toNat :: .flush :: evs, rest⟩ := by
-  have hc : o.chans ≠ 0 := by omega
-  unfold srcProcess
-  simp only [M.bind, setIoRatio_same o (recip r) out.toNat he hc hr hi hv hd]
-  rw [setError_none o none he]
-  have hz : iForO out.toNat o.ioRatio (decodeIlen (~~~(0#64))).2.toNat = 0 := by
-    have := iForO_le out.toNat o.ioRatio (decodeIlen (~~~(0#64))).2.toNat
-    have e : (decodeIlen (~~~(0#64))).2.toNat = 0 := by decide
-    omega
-  have hoo : ({ o with flushing := o.flushing || (0 = (decodeIlen (~~~(0#64))).2.toNat && (decodeIlen (~~~(0#64))).1) } : Obj) = o := by
-    cases o; simp_all
-  simp only [soxrProcess, Bool.false_eq_true, if_false, Bool.and_false, hz, bne_self_eq_false, M.bind, M.pure, hoo]
-  simp [soxrOutput, he, pullLoop, outputNoCallback, hi, hch, outChans, hfl, M.bind, M.pure, emit, askOutput, rcOf]
+/-- what a drain call reports is the engine's answer: a running one-channel converter that is flushing, room for `len`
+    frames, engine answer `g`: `soxr_output` flushes, asks for `len`, and returns `min g len` (the `min` is E2). -/
+theorem drain_call_reports_engine_answer (o : Obj) (len g : Nat) (evs : List Ev) (rest : List Tok)
+    (he : o.error = none) (hch : o.chans = 1) (hi : o.inited = true) (hfl : o.flushing = true) :
+    soxrOutput 1 o false len ⟨evs, .g g :: rest⟩ =
+      .ok (o, min g len) ⟨.output (min g len) :: .process len :: .flush :: evs, rest⟩ := by
+  obtain ⟨cfg, chans, io, error, inited, dead, hasFn, maxIlen, flushing⟩ := o
+  simp only at he hch hi hfl
+  subst he hch hi hfl
+  simp [soxrOutput, pullLoop, outputNoCallback, outChans, M.bind, M.pure, emit, askOutput]
 
 /-! ## `src_reset` -/
 
@@ -252,15 +243,26 @@ theorem failed_create_then_reset_crashes :
     srcReset (some (deadObj .engine)) ⟨[], []⟩ = .ok (some { deadObj .engine with error := none }, 0) ⟨[], []⟩ ∧
     srcProcess 3 (some { deadObj .engine with error := none }) (some d1) ⟨[], []⟩ = .crash ⟨[], []⟩ := by decide +kernel
 
-/-- NOT PROVED (stated): from `src_new`, through any sequence of in-contract calls (`src_ratio` finite and positive,
-    non-negative sizes, non-NULL buffers) during which no `resampler_create` fails, no call crashes.  The crash sites of
-    the model are reachable only with `inited = false ∧ error = none` at `soxr_input` / `soxr_output_no_callback`; the
-    correspondence check compares crash / no crash for every op of every sequence. -/
-def Goal_no_crash_in_contract : Prop :=
-  ∀ (fuel : Nat) (o : Obj) (d : Data) (c c' : Ctx),
-    o.dead = false → o.chans ≠ 0 → (o.inited = false → o.error = none → o.ioRatio = 0) →
-    dpos (recip d.ratio) = true → (∀ t ∈ c.toks, t ≠ .c false) →
-    srcProcess fuel (some o) (some d) c ≠ .crash c'
+/-- **No crash with a valid ratio**: `src_process` and `src_callback_read` cannot reach a crash site of the model for a
+    valid `src_ratio` (`1 / src_ratio > 0`) on any object that is not "zeroed with its error dropped"
+    (`error = none → num_channels ≠ 0`: true of every new converter) — whatever the engine and the callback answer, whether
+    `resampler_create` fails or not, for any buffer pointers and sizes. -/
+theorem no_crash_in_contract (fuel : Nat) (o : Obj) (d : Data) (ratio : D) (olen : BitVec 64) (outNull : Bool)
+    (hch : o.error = none → o.chans ≠ 0) (c c' : Ctx) :
+    (dpos (recip d.ratio) = true → srcProcess fuel (some o) (some d) c ≠ .crash c') ∧
+    (dpos (recip ratio) = true → srcCallbackRead fuel (some o) ratio olen outNull c ≠ .crash c') :=
+  ⟨fun hr => srcProcess_no_crash fuel o d hch hr c c', fun hr => srcCallbackRead_no_crash fuel o ratio olen outNull hch hr c c'⟩
+
+example : ((fresh 3 2 true).error = none → (fresh 3 2 true).chans ≠ 0) ∧ dpos (recip 0x3ff8000000000000) = true := by
+  decide +kernel
+
+/-- NOT PROVED (stated): the hypothesis of `no_crash_in_contract` is an invariant of every sequence of in-contract calls
+    from `src_new` during which no `resampler_create` fails (`failed_create_then_reset_crashes` shows what happens
+    otherwise).  The correspondence check compares crash / no crash for every op of every sequence. -/
+def Goal_channels_invariant : Prop :=
+  ∀ (fuel : Nat) (o : Obj) (d : Data) (c c' : Ctx) (o' : Obj) (r : PRes),
+    (o.error = none → o.chans ≠ 0) → srcProcess fuel (some o) (some d) c = .ok (some o', r) c' →
+    (o'.error = none → o'.chans ≠ 0)
 
 /-! ## the array helpers -/
 
